@@ -86,6 +86,29 @@ def pipeline_oracle(ctx, ts, method, kw, use_date):
                          "opts": D.jsonable_opts(kw), "via_date": use_date})
 
 
+def binding_eps_oracle(ctx, rng):
+    """min_branch_length chosen RELATIVE to the dated time scale (a fraction of the branches of a first,
+    default run are shorter than it), so that the constraint really binds -- also when the posterior
+    means are already in topological order"""
+    from vlib import gen
+    import numpy as np
+    ts, method, kw, use_date = pipeline_case(rng)
+    kw.pop("min_branch_length", None)
+    r = D.call(method, ts, **kw)
+    if r[0] != "ok":
+        return
+    t = r[1].nodes_time
+    lengths = np.array([t[e.parent] - t[e.child] for e in r[1].edges()])
+    if lengths.size == 0:
+        return
+    eps = float(np.quantile(lengths, rng.choice([0.25, 0.5, 0.9]))) * rng.choice([0.5, 1.0, 2.0])
+    if not (eps > 0 and math.isfinite(eps)):
+        return
+    kw2 = dict(kw, min_branch_length=eps)
+    pipeline_oracle(ctx, ts, method, kw2, use_date)
+    ctx.tally("pipeline/binding-eps")
+
+
 def kernel_oracle(ctx, case, out):
     if out == "assert":
         return
@@ -103,8 +126,10 @@ def run(ctx, model_ok=True):
         kernel_oracle(ctx, c, out)
         ctx.case({"level": "kernel", "nodes": len(c["t"]), "eps": c["eps"], "k": c["k"], "style": c["style"],
                   "t": c["t"][:10]}, nontrivial=out != "assert", kind="kernel/" + c["style"])
-    for _ in range(ctx.n(120, 1200)):
+    for _ in range(ctx.n(100, 1200)):
         pipeline_oracle(ctx, *pipeline_case(ctx.rng))
+    for _ in range(ctx.n(50, 500)):
+        binding_eps_oracle(ctx, ctx.rng)
 
 
 def search(ctx):
@@ -115,6 +140,7 @@ def search(ctx):
             return
     for _ in range(ctx.n(400, 2000)):
         pipeline_oracle(ctx, *pipeline_case(ctx.rng))
+        binding_eps_oracle(ctx, ctx.rng)
         if ctx.oracle_fails:
             return
 
